@@ -345,7 +345,7 @@ func (fox *Router) NewRoute(pattern string, handler HandlerFunc, opts ...RouteOp
 		clientip:              fox.clientip,
 		hbase:                 handler,
 		pattern:               pattern,
-		mws:                   fox.mws,
+		mws:                   fox.mws[:len(fox.mws):len(fox.mws)],
 		redirectTrailingSlash: fox.redirectTrailingSlash,
 		ignoreTrailingSlash:   fox.ignoreTrailingSlash,
 		psLen:                 n,
